@@ -27,6 +27,8 @@ type C11 struct {
 	nontrivial      strset
 	boundary        counter
 	multiTakes      int
+	ghostCrit       map[string]string // basket denom → canonical date criterion as set by Create / UpdateDateCriteria
+	critUpdates     int
 	pre1970Takes    int
 	skippedWindows  int
 	samples         []interface{}
@@ -91,7 +93,77 @@ func admissible(v *obs.View, bk *basketapi.Basket, b *baseapi.Batch, blockTime t
 	return true, "", true, kind, dist
 }
 
+// canonical forms of a date criterion: what is set (nil and the Unix epoch are different criteria)
+func critAPI(c *basketapi.DateCriteria) string {
+	switch {
+	case c == nil:
+		return "none"
+	case c.MinStartDate != nil:
+		return fmt.Sprintf("min-start-date %d.%09d", c.MinStartDate.Seconds, c.MinStartDate.Nanos)
+	case c.StartDateWindow != nil:
+		return fmt.Sprintf("window %d.%09d", c.StartDateWindow.Seconds, c.StartDateWindow.Nanos)
+	case c.YearsInThePast != 0:
+		return fmt.Sprintf("years %d", c.YearsInThePast)
+	}
+	return "none"
+}
+
+func critMsg(c *baskettypes.DateCriteria) string {
+	switch {
+	case c == nil:
+		return "none"
+	case c.MinStartDate != nil:
+		return fmt.Sprintf("min-start-date %d.%09d", c.MinStartDate.Seconds, c.MinStartDate.Nanos)
+	case c.StartDateWindow != nil:
+		return fmt.Sprintf("window %d.%09d", c.StartDateWindow.Seconds, c.StartDateWindow.Nanos)
+	case c.YearsInThePast != 0:
+		return fmt.Sprintf("years %d", c.YearsInThePast)
+	}
+	return "none"
+}
+
+// trackCriteria keeps, per basket, the date criterion that Create and the authority's successful
+// UpdateDateCriteria messages established, and compares it with the stored one: admission must be
+// decided by the criterion in force, so a silently dropped (or invented) change is a violation.
+func (m *C11) trackCriteria(e *eng.Engine, t *eng.TxRec, where string) {
+	pre, post := t.Pre.V(), t.Post.V()
+	if m.ghostCrit == nil {
+		m.ghostCrit = map[string]string{}
+	}
+	for d, b := range pre.BasketByDenom {
+		if _, ok := m.ghostCrit[d]; !ok {
+			m.ghostCrit[d] = critAPI(b.DateCriteria)
+		}
+	}
+	if t.OK {
+		for i, msg := range t.Msgs {
+			switch x := msg.(type) {
+			case *baskettypes.MsgCreate:
+				if i < len(t.Resps) {
+					if r, ok := t.Resps[i].(*baskettypes.MsgCreateResponse); ok {
+						m.ghostCrit[r.BasketDenom] = critMsg(x.DateCriteria)
+					}
+				}
+			case *baskettypes.MsgUpdateDateCriteria:
+				m.ghostCrit[x.Denom] = critMsg(x.NewDateCriteria)
+				m.critUpdates++
+			}
+		}
+	}
+	for d, b := range post.BasketByDenom {
+		want, ok := m.ghostCrit[d]
+		if !ok {
+			continue
+		}
+		if got := critAPI(b.DateCriteria); got != want {
+			e.Violate("C11", "criterion-in-force", fmt.Sprintf("%s: basket %s stores the date criterion [%s] but Create / the authority's successful updates established [%s]", where, d, got, want))
+			m.ghostCrit[d] = got // report once
+		}
+	}
+}
+
 func (m *C11) AfterTx(e *eng.Engine, t *eng.TxRec) {
+	m.trackCriteria(e, t, fmt.Sprintf("tx step %d (%s, ok=%v)", t.Step, t.Tag, t.OK))
 	if len(t.Msgs) != 1 {
 		return
 	}
@@ -292,6 +364,7 @@ func (m *C11) AfterTx(e *eng.Engine, t *eng.TxRec) {
 }
 
 func (m *C11) Finish(e *eng.Engine, cov map[string]interface{}) {
+	cov["date_criterion_changes_tracked"] = m.critUpdates
 	cov["evaluations"] = m.putsOK + m.putsRej + m.takes
 	cov["distinct_nontrivial"] = len(m.nontrivial)
 	cov["_keys"] = sortedStr(m.nontrivial)
